@@ -383,6 +383,27 @@ def extract_unit(repo, unit_dir, out_path, variant=None):
             segs.replace(cut, cb2, '\n' + ta['replacement'] + '\n', 'rewrite', 'R8 tail abstraction')
             log.append({'rule': 'R8 tail abstraction: body after the anchor line replaced by an opaque call (arbitrary result)', 'item': it['name'],
                         'anchor': ta['regex'], 'dropped_lines': dropped.count('\n')})
+        # R8 (variant): tail abstraction that starts AT an anchor line (the line itself is dropped too)
+        tf = it.get('tail_from')
+        if tf:
+            text = segs.text()
+            m2 = rl.code_mask(text)
+            _, ob2, cb2 = _fn_header(text, m2, it['name'])
+            rx = re.compile(tf['regex'])
+            pos = ob2 + 1
+            hits = []
+            for line in text[ob2 + 1:cb2].split('\n'):
+                if line.strip() and rx.search(line):
+                    hits.append(pos)
+                pos += len(line) + 1
+            kk = tf.get('occurrence', 1)
+            if len(hits) < kk:
+                raise LostAnchor('fn %s: R8 tail_from anchor /%s/ occurrence %d not found' % (it['name'], tf['regex'], kk))
+            cut = hits[kk - 1]
+            dropped = text[cut:cb2]
+            segs.replace(cut, cb2, tf['replacement'] + '\n', 'rewrite', 'R8 tail abstraction')
+            log.append({'rule': 'R8 tail abstraction: body from the anchor line on replaced by an opaque call (arbitrary result)', 'item': it['name'],
+                        'anchor': tf['regex'], 'dropped_lines': dropped.count('\n')})
         # R8': head abstraction -- replace the body from its start up to and including an anchor line
         ha_ = it.get('head_until')
         if ha_:
